@@ -26,7 +26,7 @@ Definition obj_eqb (a b : obj) : bool :=
   match a, b with
   | OSlice x, OSlice y | OArr x, OArr y | OLst x, OLst y => vlist_eqb x y
   | OGoMap x, OGoMap y | OMap x, OMap y => kvs_perm_eqb x y
-  | OSet c x, OSet d y => Nat.eqb c d && vlist_eqb x y
+  | OSet c x, OSet d y | OSetL c x, OSetL d y => Nat.eqb c d && vlist_eqb x y
   | OStk c x, OStk d y | OQue c x, OQue d y => Nat.eqb c d && vlist_eqb x y
   | OCat x, OCat y => list_eqb kv_eqb x y
   | OIter z x k, OIter w y j => val_eqb z w && vlist_eqb x y && Nat.eqb k j
